@@ -225,13 +225,13 @@ let queue_digest iter rets =
 
 let jdk_comp = {
   mach = jdk; sh0 = (fun _ _ -> qinit); ts0 = qiter0; parse_op = parse_qop; show_ret = show_qret;
-  prefill = (fun _ pre -> List.map (fun v -> Offer (nat_of_int v)) pre);
+  prefill = (fun _ pre -> List.map (fun v -> if v < 0 then Poll else Offer (nat_of_int v)) pre);
   final_prog = queue_final true; final_digest = queue_digest true; pc_of = (fun l -> Obj.repr l.l_pc); sh_digest = (fun _ -> ""); extra = (fun _ _ -> []); with_choices = (fun sh _ -> sh); cfg_digest = None;
 }
 
 let mutex_comp = {
   mach = mutexq; sh0 = (fun _ _ -> minit); ts0 = (); parse_op = parse_qop; show_ret = show_qret;
-  prefill = (fun _ pre -> List.map (fun v -> Offer (nat_of_int v)) pre);
+  prefill = (fun _ pre -> List.map (fun v -> if v < 0 then Poll else Offer (nat_of_int v)) pre);
   final_prog = queue_final false; final_digest = queue_digest false; pc_of = Obj.repr; sh_digest = (fun _ -> ""); extra = (fun _ _ -> []); with_choices = (fun sh _ -> sh); cfg_digest = None;
 }
 
